@@ -40,6 +40,9 @@ def execute(sc):
             out = FW.run_filter(sc, m, reuse=out.kwargs)
             viol = sched.check_c10(sc, m, out)
             note = "(second run with the same measurement and model objects) "
+    twin_done = 0
+    if not viol and out.error_class is None and sc.get('run_seed', 0) % 3 == 0:
+        viol, twin_done = value_independence_twin(sc, m, out)
     if note:
         for v in viol:
             v['detail'] = note + v['detail']
@@ -48,11 +51,51 @@ def execute(sc):
     return dict(violations=viol, digest=sched.result_digest(sc, m, out),
                 sig=FW.signature(sc, m), nontrivial=FW.nontrivial(sc, m),
                 probes=dict(FW.probes(sc, m, out), **({'second_run_' + str(mode): 1}
-                                                       if mode else {})), faults=FW.fault_counts(sc),
+                                                       if mode else {}),
+                            **({'twin_run_with_one_sample_grossly_wrong': 1}
+                               if twin_done else {})), faults=FW.fault_counts(sc),
                 sim_s=FW.sim_seconds(sc),
                 ops=n_rows - 1 + sum(len(s['stamps']) for s in sc['sensors']),
                 extra=dict(filter_lines=out.lines,
                            max_lines_over_budget=out.lines / FW.step_budget_for(sc, m)))
+
+
+def value_independence_twin(sc, m, out):
+    """'Every measurement sample ... is used': the filter is a linear estimator about the
+    supplied trajectory, so what a sample contributes to the covariance does not depend on
+    its value.  A twin run in which ONE in-span sample is replaced by a grossly wrong value
+    must report bit-identical standard deviations (same operations on the same numbers: H
+    and R come from the trajectory and the sensor sd, never from the measured value) and the
+    same number of innovation rows.  A filter that quietly ignores the sample (an outlier
+    gate, a validity test) fails this."""
+    import copy
+    exp = FW.expected_stamps(sc, m)
+    cand = [(i, j) for i, st in enumerate(exp) for j in range(len(st))]
+    if not cand or out.result is None:
+        return [], 0
+    i, j = cand[sc.get('run_seed', 0) // 3 % len(cand)]
+    stamps = [float(x) for x in sc['sensors'][i]['stamps']]
+    tw = copy.deepcopy(sc)
+    tw['knobs']['rerun'] = None
+    tw['sensors'][i]['outlier'] = dict(row=stamps.index(float(exp[i][j])),
+                                       offset=[250.0, -120.0, 90.0])
+    m2 = FW.materialise(tw)
+    out2 = FW.run_filter(tw, m2)
+    V = sched.V
+    if out2.error_class is not None:
+        return [V('sample-not-used', f"twin run with sample {j} of "
+                  f"{sc['sensors'][i]['cls']} grossly wrong did not return: {out2.error}",
+                  'twin/no-result')], 1
+    for tab in ('trajectory_sd', 'gyro_sd', 'accel_sd'):
+        a, b = getattr(out.result, tab), getattr(out2.result, tab)
+        if a.shape != b.shape or a.to_numpy().tobytes() != b.to_numpy().tobytes():
+            return [V('sample-not-used',
+                      f"{tab} changes when the VALUE of one sample ({sc['sensors'][i]['cls']} "
+                      f"at t={float(exp[i][j])!r}) is replaced by a grossly wrong one: the "
+                      f"sample's information is not used the same way (a linear estimator's "
+                      f"covariance does not depend on measured values)",
+                      'twin/value-independence')], 1
+    return [], 1
 
 
 def shrink(sc, vclass):
